@@ -69,8 +69,22 @@ def check_python(report, table):
                 conds[ast.unparse(x.args[0])] = sorted(g for g in guards if g[0] != "for")
     exp = {"locations_pb2": [("self.has_location_mixin", True)], "operations_pb2": [("self.has_operations_mixin", True)],
            "iam_policy_pb2": [("self._has_iam_overrides", False), ("self.has_iam_mixin", True)]}
+    leaves_ = None
+    if not all(k in conds for k in exp):
+        # table- or loop-driven selection over a literal table: the normal form unrolls it into one decision table; a module must be merged
+        # in exactly the leaves whose conditions contain its expected condition
+        from ..pymodel import nreturn as _nr, decision_leaves as _dl
+        e_mm = _nr(m, mm, keep={"_get_methods_from_service", "has_location_mixin", "has_iam_mixin", "has_operations_mixin", "_has_iam_overrides"})
+        if e_mm is not None:
+            leaves_ = [(set(c_), {ast.unparse(x.args[0]) for x in ast.walk(l_) if isinstance(x, ast.Call)
+                                  and ast.unparse(x.func) == "self._get_methods_from_service" and x.args}) for c_, l_ in _dl(e_mm)]
     for k, v in exp.items():
         r1.instance(f"{k} under {v}")
+        if leaves_ is not None and any(k in pres for _c, pres in leaves_):
+            wrong = [sorted(c_) for c_, pres in leaves_ if (set(v) <= c_) != (k in pres)]
+            r1.check(not wrong, p, mm.node.lineno, f"{k} merged / not merged against its condition in the case {wrong[0] if wrong else ''}"[:200],
+                     f"methods of {k} must be exposed exactly under {v}")
+            continue
         r1.need(k in conds, f"mixin_api_methods: self._get_methods_from_service({k})",
                 "the merge of this mixin service is not a direct call under readable conditions (table- or loop-driven selection is not analysed)")
         r1.check(conds.get(k) == sorted(v), p, mm.node.lineno, f"{k} merged under {conds.get(k)}", f"methods of {k} must be exposed exactly under {v}")
@@ -243,14 +257,21 @@ def check_rest_and_iam(report, lib: Lib):
         tree = ts.parse(f)
         loops = [n for n in tree.find_all(nodes.For)]
         r3.instance(f)
-        ok = len(loops) >= 1 and isinstance(loops[0].iter, nodes.Call) and isinstance(loops[0].iter.node, nodes.Getattr) and loops[0].iter.node.attr == "items" \
-            and isinstance(loops[0].iter.node.node, nodes.Getattr) and loops[0].iter.node.node.attr == "mixin_api_signatures" and loops[0].test is None
+        def _over_signatures(it):
+            # api.mixin_api_signatures.items() / .keys() / the mapping itself (iterating a mapping yields its keys)
+            if isinstance(it, nodes.Call) and isinstance(it.node, nodes.Getattr) and it.node.attr in ("items", "keys") and not it.args:
+                it = it.node.node
+            return isinstance(it, nodes.Getattr) and it.attr == "mixin_api_signatures"
+        ok = len(loops) >= 1 and _over_signatures(loops[0].iter) and loops[0].test is None
         r3.check(ok, ts.path(f), loops[0].lineno if loops else 0, "for name, sig in api.mixin_api_signatures.items()", "every configured mixin gets its REST class, unfiltered")
     tree = ts.parse(SVC + "transports/_rest_mixins_base.py.j2")
     loopvar = None
     for lp_ in tree.find_all(nodes.For):
         if isinstance(lp_.target, nodes.Tuple) and lp_.target.items and isinstance(lp_.target.items[0], nodes.Name):
             loopvar = lp_.target.items[0].name
+            break
+        if isinstance(lp_.target, nodes.Name) and isinstance(lp_.iter, (nodes.Getattr, nodes.Call)):      # `for name in api.mixin_api_signatures`
+            loopvar = lp_.target.name
             break
 
     def names_key(arg):
